@@ -26,7 +26,8 @@ TRACE, TRACE_CFG, EXACT_CFG = "CacheStore_Trace", "CacheStore_Trace.cfg", "Cache
 NONVAC = [("noevict", "Bounded"), ("stale", "NoStaleAfterOverwriteOrFlush"), ("foreign", "NoForeignValue"),
           ("expired", "NoExpiredValue"), ("rangestale", "RangeSound"), ("lenover", "LenBounded")]
 CACHE_SIZES = [-3, 0, 1, 10, 63, 64, 100, 1000, 1024, 1100]           # histories
-CAP_SIZES = [-5, 0, 1, 10, 63, 64, 65, 100, 1000, 1023, 1024, 1100, 2061]  # capacity runs (pkg/cache)
+CAP_SIZES = [-5, 0, 1, 10, 63, 64, 65, 100, 1000, 1023, 1024, 1025, 1100, 2049, 2061]  # capacity runs (pkg/cache)
+CHURN_SIZES = {0, 10, 1024, 1025, 1100, 2049}   # + refresh/insert churn in full shards (1025, 2049: slack 1 above 64*k)
 NKEYS = 12
 
 
@@ -43,11 +44,14 @@ def run_drv(ctx, binary, job, halt=False, timeout=900):
     except subprocess.TimeoutExpired:
         raise vlib.Infra("drv_cachestore timed out after %ds" % timeout)
     recs = []
-    for line in p.stdout.splitlines():
+    lines = p.stdout.splitlines()
+    for i, line in enumerate(lines):
         if line.startswith("{"):
             try:
                 recs.append(json.loads(line))
             except Exception:
+                if p.returncode not in (0, 66) and i == len(lines) - 1:
+                    break   # the driver died while writing: the last line is cut; the caller classifies the death
                 raise vlib.Infra("driver emitted unparsable line: " + line[:300])
     return recs, p.stderr, p.returncode
 
@@ -155,9 +159,14 @@ def hist_jobs(rng, n):
 def cap_jobs():
     jobs = []
     for s in CAP_SIZES:
-        jobs.append({"target": "cache", "size": s, "stores": 2 * max(s, 1024) + 1500, "threads": 4})
+        j = {"target": "cache", "size": s, "stores": 2 * max(s, 1024) + 1500, "threads": 4}
+        if s in CHURN_SIZES:
+            # after the fill: 6 goroutines x 20 000 stores into 4 full shards, keys from a pool of per-shard share + 3
+            j.update({"threads": 6, "churn": 20000, "churn_shards": 4, "per_shard": max(s, 1024) // 64})
+        jobs.append(j)
     for s in (64, 100, 128, 1100):
         jobs.append({"target": "map", "size": s, "stores": 2 * s + 1500, "threads": 4})
+    jobs.append({"target": "map", "size": 1024, "stores": 3500, "threads": 6, "churn": 20000, "churn_shards": 4, "per_shard": 16})
     for s in (2, 5):
         jobs.append({"target": "lru", "size": s, "stores": 1500, "threads": 4})
     for i, j in enumerate(jobs):
